@@ -506,6 +506,39 @@ def kills(w, f):
     return True
 
 
+def _is_boolean(e):
+    e = sk(e)
+    return e is not None and ((e.get("k") == "Bin" and e["op"] in ("&&", "||", "==", "!=", "<", "<=", ">", ">=")) or
+                              (e.get("k") == "Un" and e["op"] == "!"))
+
+
+def truth_in(d, e):
+    """True / False if disjunct d settles boolean expression e, else None."""
+    e = sk(e)
+    if e is None:
+        return None
+    v = cval(e)
+    if v is not None:
+        return bool(v)
+    if e.get("k") == "Un" and e["op"] == "!":
+        t = truth_in(d, e["a"][0])
+        return None if t is None else not t
+    if e.get("k") == "Bin" and e["op"] in ("&&", "||"):
+        a, b = truth_in(d, e["a"][0]), truth_in(d, e["a"][1])
+        if e["op"] == "&&":
+            if a is False or b is False:
+                return False
+            return True if (a and b) else None
+        if a is True or b is True:
+            return True
+        return False if (a is False and b is False) else None
+    for pol in (True, False):
+        fs = [g for g in cond_facts(e, pol) if g.kind == "cmp"]
+        if fs and all(d_holds(d, g.op, g.l, g.r) for g in fs):
+            return pol
+    return None
+
+
 # ----------------------------------------------------------------- condition → facts
 
 def cond_facts(c, truth):
@@ -1145,6 +1178,11 @@ class Engine:
             rkey = pp(rv)
             for d in ds:
                 v = cval(rv)
+                if v is None and _is_boolean(rv):
+                    # `return a == b && !strcmp(..)`: the CFG has split the expression, each disjunct knows its outcome
+                    tv = truth_in(d, rv)
+                    if tv is not None:
+                        v = 1 if tv else 0
                 if v is not None:
                     if not const_implies("==", v, relop, c):
                         continue
@@ -1157,7 +1195,17 @@ class Engine:
                     if d_contradictory(test):
                         continue
                     an = self.analysis(f)
-                    d2 = set(an.apply_edge(d, [Fact(relop, rv, mkint(c))]))
+                    extra = []
+                    if _is_boolean(rv):
+                        z, o = const_implies("==", 0, relop, c), const_implies("==", 1, relop, c)
+                        if o and not z:
+                            extra = cond_facts(rv, True)
+                        elif z and not o:
+                            extra = cond_facts(rv, False)
+                        test2 = set(d) | {g for g in extra if g.kind == "cmp"}
+                        if d_contradictory(test2):
+                            continue
+                    d2 = set(an.apply_edge(d, [Fact(relop, rv, mkint(c))] + list(extra)))
                 # aliases of the returned value
                 bykey = {}
                 if v is None:
